@@ -654,6 +654,7 @@ Enc(type, pver, enc, m) ==
       [] type = "addrv2"     -> EncAddrV2(m)
       [] type = "tx"         -> EncTx(m, enc)
       [] type = "block"      -> EncBlock(m, enc)
+      [] type = "txout"      -> OutBody(m)          \* one transaction output on its own (ReadTxOut / WriteTxOut)
 
 \* "ok" or "malformed": the encoder's own checks (not the frame's)
 EncRes(type, pver, enc, m) ==
@@ -673,6 +674,7 @@ Size(type, pver, enc, m) ==
       [] type = "addrv2"     -> AddrV2Size(m)
       [] type = "tx"         -> TxSizeEnc(m, enc)
       [] type = "block"      -> BlockSize(m, enc)
+      [] type = "txout"      -> OutSize(m)
 
 \* [res, i, x]: verdict, next unread token, value
 Dec(type, pver, enc, ts) ==
@@ -684,6 +686,7 @@ Dec(type, pver, enc, ts) ==
            [] type = "addrv2"     -> DecAddrV2(ts, St0)
            [] type = "tx"         -> DecTx(ts, St0, enc)
            [] type = "block"      -> DecBlock(ts, St0, enc)
+           [] type = "txout"      -> Elem(KTxOut, ts, St0)
 
 \* what re-encoding a decoded value produces (addrv2: the ignored entries are gone)
 ReEncAddrV2(x) ==
